@@ -234,6 +234,17 @@ func HChildKeys() {
 		return
 	}
 	check(c2, ".second")
+	// a further derivation with the same nonce but the largest suite (AES-256 + SHA2-256-128): nothing kept
+	// from the earlier derivations is reused for a request it does not cover
+	c3 := &ChildSAKey{EncrKInfo: encr.StrToKType(vEncrNames[2]), IntegKInfo: integ.StrToKType(vIntegNames[2])}
+	err = c3.GenerateKeyForChildSA(ike, append([]byte{}, nonce...))
+	vr.Assert("c08.noerr.third", err == nil)
+	if err != nil {
+		return
+	}
+	le, la = vEncrKey[2], vIntegKey[2]
+	ks = vPrfPlus(vPrfHash[pi], skd, nonce, 2*(le+la))
+	check(c3, ".third")
 }
 
 // HNewIKESAKey (C07): an SA built from a proposal through NewIKESAKey: the local public value and the
